@@ -2,18 +2,24 @@
   Driver op for the simulated device (`Dummy.lean`): one line = a whole history.
     dummy run <defs> <ops>
   defs : instance definitions joined by `+`
-           D,<flags>,<rxp>,<snum>                 default channel set
-           C,<flags>,<rxp>,<snum>,<chan>:<chan>…  freshly built channels, chan = type.vdim.mlen.gen.en.div.namehex
+           D,<flags>,<pad>,<snum>                 default channel set
+           C,<flags>,<pad>,<snum>,<chan>:<chan>…  freshly built channels, chan = type.vdim.mlen.gen.en.div.namehex[.id]
                                                    (gen: 0..9 = ChannelFunc<k>, 10 = user vector function, 11 = user function
                                                     of the call index, 12 = sparse user function of the call index,
-                                                    n = no function)
-           A,<flags>,<rxp>,<snum>,<k>             the channel objects of instance k (same list object)
-         the interface's write padding is set to rxp
+                                                    n = no function; id = the `chan` argument of `DeviceChannel(...)`:
+                                                    the device addresses channels by POSITION, the id is read by nothing
+                                                    on the device side — parsed and ignored here)
+           A,<flags>,<pad>,<snum>,<k>             the channel objects of instance k (same list object)
+         pad = <rxp> | <rxp>/<wpad> | <rxp>/<wpad>/<sleep_ms>: rx padding the device reports, the interface's write
+         padding (default: = rxp, what a client sets), `stream_sleep` in ms (the model has no clock: parsed and ignored)
   ops  : joined by `;`, each `<k><code>[arg]`: w<hex> write · R recv step · S stream step · r read ·
-         a start · z stop · d state dump
+         a start · z stop · d state dump · n construct instance k NOW (an instance with an `n` op is not
+         constructed up-front but at that op, in the world the earlier ops left: `World.newDefault` / `newCustom` /
+         `newAt` on the current heap)
   output: `ok` then one token per op: `.` (nothing to see) · `!e1,e2` (exceptions that ended threads) ·
          read: `-` (empty) | frame hex | `S<payload hex>` for a stream frame (unmodelled values are zero bits) ·
-         dump: <en bits>/<dividers>/<stream flag>/<len qwrite>/<len qread>/<call counters>
+         dump: <en bits>/<dividers>/<stream flag>/<len qwrite>/<len qread>/<call counters> ·
+         `?` for an op on an instance that does not exist (yet)
 -/
 import NxsModel.Driver.Basic
 import NxsModel.Dummy
@@ -21,46 +27,82 @@ namespace Nxs.Driver
 open Nxs Nxs.Dummy
 
 def dummyChanArg (s : String) : Option Chan := do
-  match s.splitOn "." with
-  | [ty, vdim, mlen, gen, en, div, name] =>
+  let mk (ty vdim mlen gen en div name : String) : Option Chan := do
     let ty ← natArg ty; let vdim ← natArg vdim; let mlen ← natArg mlen
     let g ← if gen = "n" then some none else (natArg gen).map some
     let en ← natArg en; let div ← natArg div
     let nm ← hexArg name
     pure ⟨en ≠ 0, ty, vdim, div, mlen, nm, g, 0, 1, 0⟩
+  match s.splitOn "." with
+  | [ty, vdim, mlen, gen, en, div, name] => mk ty vdim mlen gen en div name
+  | [ty, vdim, mlen, gen, en, div, name, cid] =>
+    -- the channel id given to `DeviceChannel(...)`: no part of the model (channels are addressed by position)
+    let _ ← natArg cid
+    mk ty vdim mlen gen en div name
   | _ => none
 
-def dummyInstArg (w : World) (s : String) : Option World := do
+/-- `<rxp>` | `<rxp>/<wpad>` | `<rxp>/<wpad>/<sleep_ms>` → (rxp, wpad) -/
+def dummyPadArg (s : String) : Option (Nat × Nat) := do
+  match s.splitOn "/" with
+  | [r] => let r ← natArg r; pure (r, r)
+  | [r, w] => let r ← natArg r; let w ← natArg w; pure (r, w)
+  | [r, w, sl] => let r ← natArg r; let w ← natArg w; let _ ← natArg sl; pure (r, w)
+  | _ => none
+
+/-- a parsed instance definition -/
+inductive DummyDef where
+  | dflt (flags rxp snum wpad : Nat)
+  | custom (cs : List Chan) (flags rxp snum wpad : Nat)
+  | alias (flags rxp snum wpad k : Nat)
+
+def dummyDefArg (s : String) : Option DummyDef := do
   match s.splitOn "," with
-  | ["D", flags, rxp, snum] =>
-    let f ← natArg flags; let r ← natArg rxp; let n ← natArg snum
-    pure (w.newDefault f r n r)
-  | ["C", flags, rxp, snum, chans] =>
-    let f ← natArg flags; let r ← natArg rxp; let n ← natArg snum
+  | ["D", flags, pad, snum] =>
+    let f ← natArg flags; let (r, wp) ← dummyPadArg pad; let n ← natArg snum
+    pure (.dflt f r n wp)
+  | ["C", flags, pad, snum, chans] =>
+    let f ← natArg flags; let (r, wp) ← dummyPadArg pad; let n ← natArg snum
     let cs ← (chans.splitOn ":").mapM dummyChanArg
-    pure (w.newCustom cs f r n r)
-  | ["A", flags, rxp, snum, k] =>
-    let f ← natArg flags; let r ← natArg rxp; let n ← natArg snum; let k ← natArg k
-    let i ← w.insts[k]?
-    pure (w.newAt i.addrs f r n r)
+    pure (.custom cs f r n wp)
+  | ["A", flags, pad, snum, k] =>
+    let f ← natArg flags; let (r, wp) ← dummyPadArg pad; let n ← natArg snum; let k ← natArg k
+    pure (.alias f r n wp k)
   | _ => none
 
-def dummyWorldArg (s : String) : Option World :=
-  (s.splitOn "+").foldlM dummyInstArg World.init
+/-- the driver's state: the world and, per definition, the index of its instance in the world (none = not constructed) -/
+abbrev DummySt := World × List (Option Nat)
 
-def dummyOpArg (s : String) : Option (Nat × Option Op) :=
+/-- construct the instance of definition number `k` in the current world -/
+def dummyConstruct (st : DummySt) (k : Nat) (d : DummyDef) : Option DummySt := do
+  let (w, idx) := st
+  let w' ← match d with
+    | .dflt f r n wp => some (w.newDefault f r n wp)
+    | .custom cs f r n wp => some (w.newCustom cs f r n wp)
+    | .alias f r n wp a => do
+      let j ← (idx[a]?).join
+      let i ← w.insts[j]?
+      some (w.newAt i.addrs f r n wp)
+  pure (w', idx.set k (some w.insts.length))
+
+inductive DummyCode where
+  | op (o : Op)
+  | dump
+  | construct
+
+def dummyOpArg (s : String) : Option (Nat × DummyCode) :=
   match s.toList with
   | k :: code :: rest =>
     if k.isDigit then
       let k := k.toNat - 48
       match code with
-      | 'w' => (hexArg (String.ofList rest)).map fun d => (k, some (.write d))
-      | 'R' => if rest.isEmpty then some (k, some .recvStep) else none
-      | 'S' => if rest.isEmpty then some (k, some .streamStep) else none
-      | 'r' => if rest.isEmpty then some (k, some .read) else none
-      | 'a' => if rest.isEmpty then some (k, some .start) else none
-      | 'z' => if rest.isEmpty then some (k, some .stop) else none
-      | 'd' => if rest.isEmpty then some (k, none) else none
+      | 'w' => (hexArg (String.ofList rest)).map fun d => (k, .op (.write d))
+      | 'R' => if rest.isEmpty then some (k, .op .recvStep) else none
+      | 'S' => if rest.isEmpty then some (k, .op .streamStep) else none
+      | 'r' => if rest.isEmpty then some (k, .op .read) else none
+      | 'a' => if rest.isEmpty then some (k, .op .start) else none
+      | 'z' => if rest.isEmpty then some (k, .op .stop) else none
+      | 'd' => if rest.isEmpty then some (k, .dump) else none
+      | 'n' => if rest.isEmpty then some (k, .construct) else none
       | _ => none
     else none
   | _ => none
@@ -85,18 +127,41 @@ def dummyDumpStr (w : World) (k : Nat) : String :=
     let calls := ",".intercalate (cs.map fun c => toString c.calls)
     s!"{ens}/{ds}/{boolStr i.flag}/{i.qwrite.length}/{i.qread.length}/{calls}"
 
-def dummyRun (w : World) : List (Nat × Option Op) → List String
+def dummyRun (defs : List DummyDef) (st : DummySt) : List (Nat × DummyCode) → List String
   | [] => []
-  | (k, none) :: rest => dummyDumpStr w k :: dummyRun w rest
-  | (k, some op) :: rest =>
-    let (w', o) := w.step k op
-    dummyObsStr o :: dummyRun w' rest
+  | (k, .construct) :: rest =>
+    match (st.2[k]?).join, defs[k]? with
+    | none, some d =>
+      match dummyConstruct st k d with
+      | some st' => "." :: dummyRun defs st' rest
+      | none => "?" :: dummyRun defs st rest
+    | _, _ => "?" :: dummyRun defs st rest
+  | (k, .dump) :: rest =>
+    match (st.2[k]?).join with
+    | some j => dummyDumpStr st.1 j :: dummyRun defs st rest
+    | none => "?" :: dummyRun defs st rest
+  | (k, .op op) :: rest =>
+    match (st.2[k]?).join with
+    | some j =>
+      let (w', o) := st.1.step j op
+      dummyObsStr o :: dummyRun defs (w', st.2) rest
+    | none => "?" :: dummyRun defs st rest
+
+/-- the instances without an `n` op are constructed up-front, in definition order -/
+def dummyInit (defs : List DummyDef) (late : List Nat) : Option DummySt :=
+  (List.range defs.length).foldlM (fun st k =>
+    if late.contains k then some st
+    else match defs[k]? with
+      | some d => dummyConstruct st k d
+      | none => none) (World.init, List.replicate defs.length none)
 
 def dummyOp : List String → Option String
   | ["run", defs, ops] => do
-    let w ← dummyWorldArg defs
+    let ds ← (defs.splitOn "+").mapM dummyDefArg
     let os ← (ops.splitOn ";").mapM dummyOpArg
-    pure ("ok " ++ " ".intercalate (dummyRun w os))
+    let late := os.filterMap fun p => match p.2 with | .construct => some p.1 | _ => none
+    let st ← dummyInit ds late
+    pure ("ok " ++ " ".intercalate (dummyRun ds st os))
   | _ => none
 
 end Nxs.Driver
